@@ -178,7 +178,6 @@ theorem Field.projIds_ids (I : List Int) (all : Bool) :
         intro a ha; simp [hpre a ha]
       rw [if_neg hd]
       simp only [Field.paths, List.filter_cons, keep, Path.chain, hpany, Bool.or_false, hits_mk]
-      simp only [keep, Path.chain] at ih
       cases hh : hitsL I cs
       · -- nothing selected below; the field itself is not selected either (else it would be taken whole)
         have hci : I.contains i = false := by
